@@ -51,10 +51,19 @@ func kindIndex() *pbsubstreams.Module_KindBlockIndex_ {
 	return &pbsubstreams.Module_KindBlockIndex_{KindBlockIndex: &pbsubstreams.Module_KindBlockIndex{OutputType: "proto:sf.substreams.index.v1.Keys"}}
 }
 
-// emptyWasm is a valid WebAssembly module without any function (header + one custom section named tag), so that
-// the real services get past the compilation of the request's binaries; no block is ever delivered, so nothing runs.
+// emptyWasm is a valid WebAssembly module that exports what the rust-v1 runtime requires to LOAD a binary (memory,
+// alloc, dealloc) and nothing else, plus a custom section named tag: the real services get past the compilation
+// of the request's binaries; no block is ever delivered, so no entrypoint is ever looked up or run.
 func emptyWasm(tag byte) []byte {
-	return []byte{0, 'a', 's', 'm', 1, 0, 0, 0, 0, 3, 1, tag, 0}
+	return []byte{
+		0, 'a', 's', 'm', 1, 0, 0, 0,
+		1, 0x0b, 2, 0x60, 1, 0x7f, 1, 0x7f, 0x60, 2, 0x7f, 0x7f, 0, // types: (i32)->i32, (i32,i32)->()
+		3, 3, 2, 0, 1, // functions
+		5, 3, 1, 0, 1, // one memory, 1 page
+		7, 0x1c, 3, 6, 'm', 'e', 'm', 'o', 'r', 'y', 2, 0, 5, 'a', 'l', 'l', 'o', 'c', 0, 0, 7, 'd', 'e', 'a', 'l', 'l', 'o', 'c', 0, 1, // exports
+		0x0a, 9, 2, 4, 0, 0x41, 0, 0x0b, 2, 0, 0x0b, // bodies: alloc returns 0, dealloc does nothing
+		0, 3, 1, tag, 0, // custom section
+	}
 }
 
 // validModules builds a small well-formed module graph: modules in topological
